@@ -79,6 +79,8 @@ def assume_typed(st, t, k, heap=None):
     if key in st.typed_seen:
         return
     st.typed_seen.add(key)
+    # keep the keyed ASTs alive (z3 recycles ids of freed ASTs; a recycled id would suppress a typing fact)
+    st.glob[("typed",) + key] = (t, (heap or st).H("llen"), (heap or st).alloc)
     for f in typed(heap or st, t, k):
         st.assume(f, glob=True)
 
@@ -174,8 +176,8 @@ def normalized(n, el):
         return z3.ForAll([j], body)
 
 
-def mk_list_array(st, j, n, body):
-    return mk_array(st, j, z3.If(z3.And(0 <= j, j < n), body, VNone))
+def mk_list_array(st, j, n, body, pats=()):
+    return mk_array(st, j, z3.If(z3.And(0 <= j, j < n), body, VNone), pats=pats)
 
 
 def named(st, t, name="v"):
@@ -304,7 +306,9 @@ def l_concat(st, a, b, sa=None, sb=None):
     la = l_len(sa, a)
     ea, eb = l_el(sa, a), l_el(sb, b)
     n = la + l_len(sb, b)
-    return new_list(st, n, mk_list_array(st, j, n, z3.If(j < la, z3.Select(ea, j), z3.Select(eb, j - la))))
+    # alternative trigger on the left operand's element: an index known for `a` is an index of the result
+    return new_list(st, n, mk_list_array(st, j, n, z3.If(j < la, z3.Select(ea, j), z3.Select(eb, j - la)),
+                                         pats=[z3.Select(ea, j)]))
 
 
 def l_append(run, st, r, v, line):
